@@ -47,7 +47,7 @@ type Case struct {
 type Chooser interface {
 	Decide(h *Hand, gs *pf.GameState) Op
 	Probes(h *Hand, gs *pf.GameState) []Op
-	Cut(h *Hand) bool
+	Cut(h *Hand) string // "" no rebuild; "new": new game object from the JSON state; "load": LoadState(JSON state) on the live object
 }
 
 // Trans is what monitors see: one operation with the states around it.
@@ -387,6 +387,27 @@ func (h *Hand) Begin() *vlib.Violation {
 	return nil
 }
 
+// rebuild replaces the game by one restored from its serialized state.
+func (h *Hand) rebuild(how string) (v *vlib.Violation) {
+	defer func() {
+		if e := recover(); e != nil {
+			if h.Prop == "C06" {
+				v = vlib.V("C06", "panic/restore:"+how, "restoring the hand from its JSON state panicked: %v", e)
+				return
+			}
+			h.Aborted = true
+		}
+	}()
+	st := JSONClone(h.G.GetState())
+	if how == "load" {
+		h.G.LoadState(st)
+	} else {
+		h.G = pf.NewPokerFace().NewGameFromState(st)
+	}
+	h.Facts["restored-from-json"] = true
+	return nil
+}
+
 // playPassively drives an earlier hand on a game object: the expected table steps,
 // and at decision points the first of check / call / pass / fold that is offered
 // (every third decision an all-in, so that folded and all-in seats are left behind).
@@ -468,9 +489,16 @@ func (h *Hand) StepOnce(ch Chooser) (bool, *vlib.Violation) {
 	if h.StopAt != nil && h.StopAt(gs) {
 		return true, nil
 	}
-	if ch.Cut(h) {
+	if how := ch.Cut(h); how != "" {
 		h.CutNow = true
-		h.Ops = append(h.Ops, Op{K: "cut", Seat: -1})
+		h.Ops = append(h.Ops, Op{K: "cut", Seat: -1, A: how})
+		if h.Prop != "C07" {
+			// every property must survive the persistence hop the table backend makes
+			// between any two operations (C07 compares replicas instead, see resumeMon)
+			if v := h.rebuild(how); v != nil || h.Aborted {
+				return true, v
+			}
+		}
 	}
 	var op Op
 	switch ev {
